@@ -1066,8 +1066,9 @@ class Machine(object):
         if gmap is None and self.frames and '{closure' in name:
             fr.generics = self.frames[-1].generics     # closures see their parent's parameters
         fr.cells = {}
-        for n in f.locals:
-            fr.cells[n] = Cell(None)
+        for n, lty in f.locals.items():
+            # zero-sized closures are never assigned in MIR: give closure-typed locals their (capture-less) value
+            fr.cells[n] = Cell(Adt(lty, 0, ()) if lty.startswith('{closure@') and lty.endswith('}') else None)
         fr.cells[0] = Cell(None)
         if len(args) != f.nargs:
             # closures called through Fn* traits receive (closure, (args...))
